@@ -588,7 +588,7 @@ func checkC20(c *Ctx, r *Report) {
 			}
 			dependsOnExpiry := false
 			for _, l := range condLeaves(iff.Cond) {
-				if fv, _, ok := fieldOf(l); ok && fv.Name() == "ExpiresAt" {
+				if fv, _, ok := fieldOf(l); ok && fname(fv) == "ExpiresAt" {
 					dependsOnExpiry = true
 				}
 			}
@@ -898,7 +898,7 @@ func expiredWhenTrueF(cond ssa.Value, field string) (expired bool, known bool) {
 	isExpiry := func(x ssa.Value) bool {
 		return derivesFrom(x, func(y ssa.Value) bool {
 			fv, _, ok := fieldOf(y)
-			return ok && fv.Name() == field
+			return ok && fname(fv) == field
 		})
 	}
 	isNow := func(x ssa.Value) bool {
